@@ -183,6 +183,12 @@ func xr(r *core.Rand, o Opts) *rtcp.ExtendedReport {
 // TypeSpecific are the value; only the derived BlockLength is arbitrary.
 func PrefillXRHeaders(r *core.Rand, x *rtcp.ExtendedReport) {
 	h := func() rtcp.XRHeader {
+		if r.Chance(1, 3) {
+			// the coherent header of some block (possibly of another kind): what copying the
+			// header of a decoded block into a new block leaves behind
+			tl := [][2]int{{1, 2}, {1, 3}, {2, 2}, {2, 4}, {3, 2}, {3, 5}, {4, 2}, {5, 0}, {5, 3}, {5, 6}, {6, 9}, {7, 8}}[r.Intn(12)]
+			return rtcp.XRHeader{BlockType: rtcp.BlockTypeType(tl[0]), TypeSpecific: rtcp.TypeSpecificField(r.Pick(0, 0, 0xE0, 0x0F, int(r.U8()))), BlockLength: uint16(tl[1])}
+		}
 		return rtcp.XRHeader{BlockType: rtcp.BlockTypeType(r.Pick(0, 1, 2, 3, 4, 5, 6, 7, 8, 255)), TypeSpecific: rtcp.TypeSpecificField(r.Pick(0, 0xFF, 0xF8, 0x07, 0x18, 0x80, 0x40, 0x20, 0x10, 0x08, int(r.U8()))), BlockLength: uint16(r.Pick(0, 1, 3, 6, 65535, int(r.U16())))}
 	}
 	for _, b := range x.Reports {
